@@ -4,7 +4,7 @@
    every run.  Tied to specs.py / runner.py / conventions.py by harness/props/c12.py. *)
 From Coq Require Import List ZArith Bool Arith.
 From YV Require Import Common.Corr Model.Resolution Model.Naming Gen.Registry
-                       Lemmas.ResolutionSpec Lemmas.ResolutionWinner Lemmas.ResolutionBind Lemmas.ResolutionRank.
+                       Lemmas.ResolutionSpec Lemmas.ResolutionWinner Lemmas.ResolutionBind Lemmas.ResolutionRank Lemmas.ResolutionMap.
 Import ListNotations.
 Close Scope Z_scope.
 
@@ -42,6 +42,77 @@ Theorem C12_slots_increase : forall ps p q a b,
   NoDup (all_pos ps) -> In p ps -> ppos p = Some a -> is_hidden (pkind p) = false ->
   ppos q = Some b -> a < b -> rank ps p < rank ps q.
 Proof. exact rank_mono. Qed.
+
+(* ---- map_args (the "can this overload be called with this syntax" filter) across spellings -------- *)
+(* EXACT: the spelling with split point k is accepted iff every bound parameter is given or defaulted
+   and the arguments / defaults of the parameters spelled positionally (slot < k) pass the
+   pre-evaluation check.  Arguments spelled by keyword and dropped defaults are NOT checked by map_args. *)
+Theorem C12_spellings_map_exact : forall (sub : tag -> tag -> bool) ps (s : assignment) k,
+  NoDup (bound_names ps) -> rank_inj ps -> (forall n, s n <> Some ANoValue) ->
+  slots_covered ps -> k <= nvis ps ->
+  (map_args sub ps (spell_args ps s k) (spell_kw ps s k) <> None <->
+   assignable ps s = true /\
+   forall p, In p ps -> covered ps k p = true -> check sub (pkind p) (argval s p) = true).
+Proof. exact map_args_spell_exact. Qed.
+
+(* under the guard - the argument or default of every visible positional parameter passes the
+   pre-evaluation check - all spellings of one assignment are accepted or rejected together *)
+Theorem C12_spellings_map_equal_guarded : forall (sub : tag -> tag -> bool) ps (s : assignment) k1 k2,
+  NoDup (bound_names ps) -> NoDup (all_pos ps) -> slots_covered ps -> (forall n, s n <> Some ANoValue) ->
+  k1 <= nvis ps -> k2 <= nvis ps -> precheck_guard sub ps s ->
+  (map_args sub ps (spell_args ps s k1) (spell_kw ps s k1) <> None <->
+   map_args sub ps (spell_args ps s k2) (spell_kw ps s k2) <> None).
+Proof.
+  exact (fun sub ps s k1 k2 N P C Hs K1 K2 G =>
+           spellings_map_equal_guarded sub ps s k1 k2 N (rank_inj_of_positions ps P) C Hs K1 K2 G).
+Qed.
+
+(* without the guard the only possible difference: a longer positional prefix rejects more *)
+Theorem C12_spellings_map_monotone : forall (sub : tag -> tag -> bool) ps (s : assignment) k1 k2,
+  NoDup (bound_names ps) -> NoDup (all_pos ps) -> slots_covered ps -> (forall n, s n <> Some ANoValue) ->
+  k1 <= k2 -> k2 <= nvis ps ->
+  map_args sub ps (spell_args ps s k2) (spell_kw ps s k2) <> None ->
+  map_args sub ps (spell_args ps s k1) (spell_kw ps s k1) <> None.
+Proof.
+  exact (fun sub ps s k1 k2 N P C Hs K12 K2 =>
+           spellings_map_monotone sub ps s k1 k2 N (rank_inj_of_positions ps P) C Hs K12 K2).
+Qed.
+
+(* the two quirk classes outside the guard (real yaql behaviour: the overload is rejected either way,
+   by map_args for the positional spelling and only later by get_delegate for the keyword spelling) *)
+Definition qsig (d : option value) : list param :=
+  [{| pname := 1%Z; palias := None; ppos := Some 0; pdefault := d; pkind := KTyped 2 false; pstar := SNone |}].
+(* (1) a constant argument of the wrong type *)
+Theorem C12_spellings_map_equal_refuted_constant :
+  let s : assignment := fun _ => Some (AConst (VObj 6)) in
+  map_args sub6 (qsig None) (spell_args (qsig None) s 1) (spell_kw (qsig None) s 1) = None /\
+  map_args sub6 (qsig None) (spell_args (qsig None) s 0) (spell_kw (qsig None) s 0) <> None /\
+  get_delegate sub6 (qsig None) (spell_args (qsig None) s 0) (spell_kw (qsig None) s 0) = None.
+Proof. vm_compute. repeat split; discriminate. Qed.
+(* (2) an omitted default that its own parameter type does not accept: empty slot vs dropped *)
+Theorem C12_spellings_map_equal_refuted_default :
+  let s : assignment := fun _ => None in
+  let ps := qsig (Some VNull) in
+  map_args sub6 ps (spell_args ps s 1) (spell_kw ps s 1) = None /\
+  map_args sub6 ps (spell_args ps s 0) (spell_kw ps s 0) <> None /\
+  get_delegate sub6 ps (spell_args ps s 0) (spell_kw ps s 0) = None.
+Proof. vm_compute. repeat split; discriminate. Qed.
+
+(* (3) NOT a constructed spelling: an empty slot whose parameter is passed by keyword, f(x, , b => y)
+   for def f(a, b=None).  get_delegate binds it, map_args rejects it - unless the definition has *args,
+   then the empty slot falls to *args and the call is accepted (recorded as an open finding of C12) *)
+Definition fab (with_star : bool) : list param :=
+  [{| pname := 1%Z; palias := None; ppos := Some 0; pdefault := None; pkind := KTyped 0 true; pstar := SNone |};
+   {| pname := 2%Z; palias := None; ppos := Some 1; pdefault := Some VNull; pkind := KTyped 0 true; pstar := SNone |}] ++
+  (if with_star then [{| pname := 9%Z; palias := None; ppos := Some 2; pdefault := None; pkind := KTyped 0 true; pstar := SArgs |}] else []).
+Theorem C12_empty_slot_with_keyword_refuted :
+  let args := [ARaw (VObj 4); ANoValue] in
+  let kw := [(2%Z, ARaw (VObj 5))] in
+  map_args sub6 (fab false) args kw = None /\
+  get_delegate sub6 (fab false) args kw = Some ([BVal (VObj 4); BVal (VObj 5)], []) /\
+  map_args sub6 (fab true) args kw <> None /\
+  get_delegate sub6 (fab true) args kw = Some ([BVal (VObj 4); BVal (VObj 5)], []).
+Proof. vm_compute. repeat split; discriminate. Qed.
 
 (* an omitted default and the same value given explicitly (plain or as a constant expression) deliver
    the same thing to an eagerly evaluated typed parameter *)
@@ -119,6 +190,9 @@ Proof. repeat constructor; cbn; intuition discriminate. Qed.
 
 Example sig1_nvis : nvis sig1 = 3. Proof. reflexivity. Qed.
 
+Example sig1_slots_covered : slots_covered sig1.
+Proof. intros i Hi. change (nvis sig1) with 3 in Hi. do 3 (destruct i as [|i]; [cbn; discriminate|]). exfalso. apply (Nat.nlt_0_r i). do 3 apply Nat.succ_lt_mono in Hi. exact Hi. Qed.
+
 Definition asg1 : assignment := fun n => if Z.eqb n 1%Z then Some (ARaw (VObj 4)) else if Z.eqb n 30%Z then Some (ARaw (VObj 6)) else None.
 
 (* a given, b omitted (default), c given: f(a, , c) = f(a, c => ..) = f(a => .., c => ..); delivered:
@@ -141,6 +215,12 @@ Proof. vm_compute. repeat split. Qed.
 Print Assumptions C12_binding_depends_on_assignment.
 Print Assumptions C12_spellings_bind_equal.
 Print Assumptions C12_slots_increase.
+Print Assumptions C12_spellings_map_exact.
+Print Assumptions C12_spellings_map_equal_guarded.
+Print Assumptions C12_spellings_map_monotone.
+Print Assumptions C12_spellings_map_equal_refuted_constant.
+Print Assumptions C12_spellings_map_equal_refuted_default.
+Print Assumptions C12_empty_slot_with_keyword_refuted.
 Print Assumptions C12_explicit_default.
 Print Assumptions C12_kind_exclusive.
 Print Assumptions C12_alias_is_convention.
